@@ -8,6 +8,7 @@ mod heap;
 mod patterns;
 mod positions;
 mod progs;
+mod progs_gen;
 mod scope;
 mod server;
 mod server_gen;
@@ -22,8 +23,10 @@ fn main() {
   match cmd {
     "ast-dump" => astdump::main(rest),
     "compile" => compile::main(rest),
+    "mir-dump" => compile::mir_dump_main(rest),
     "mir-types" => compile::mir_types_main(rest),
     "run-programs" => progs::main(rest),
+    "gen-programs" => progs_gen::main(rest),
     "edits-run" => edits::run(rest),
     "heap-drive" => heap::drive(rest),
     "heap-replay" => heap::replay(rest),
@@ -43,6 +46,7 @@ fn main() {
     "syntax-modules" => syntax::modules(rest),
     "syntax-strings" => syntax::strings(rest),
     "syntax-one" => syntax::one(rest),
+    "syntax-probe" => syntax::probe(rest),
     _ => {
       eprintln!("usage: vh <subcommand> ...");
       std::process::exit(2);
